@@ -131,6 +131,9 @@ func (g *hdGen) message(c int) hdOp {
 	if g.r.chance(15) {
 		o.FS = g.pickConn()
 	}
+	if k == "msg" && g.opts.resume && g.r.chance(22) {
+		o.Tag = hdChatRefreshTag
+	}
 	return o
 }
 
